@@ -286,7 +286,7 @@ def canon(cas, fmt="xmi"):
         if hasattr(v, "sofaID"):
             return ["sofa", v.xmiID]
         if is_fs(v):
-            return None if v.type.name == T + "NULL" else ["ref", v.xmiID]
+            return ["ref", v.xmiID]   # also for an instance of uima.cas.NULL: a null value is None, not that structure
         return ["?", repr(v)]
 
     def content(kind, v):
@@ -414,7 +414,8 @@ def rval(r, k):
 
 
 def gen_tspec(r, n_types=6, max_feats=5, awkward=True):
-    names = ["a.b.T0", "a.c.T1", "x.b.T2", "NoNs", "q.cas.T4", "q.type.T5", "c.type0.T6", "r.type.T7"][:n_types]
+    # two pairs share a short name across packages (T0, T5): anything keyed by short name mixes them up
+    names = ["a.b.T0", "a.c.T1", "x.b.T0", "NoNs", "q.cas.T4", "q.type.T5", "c.type0.T5", "r.type.T7"][:n_types]
     spec = []
     for n in names:
         sup = r.choice([ANNOTATION, ANNOTATION, TOP, ANNOTATION_BASE] + [t["name"] for t in spec])
